@@ -339,7 +339,9 @@ func c10run(env sched.Env) *sched.Report {
 	rep.Notes = append(rep.Notes, fmt.Sprintf("%d values, %d concatenated streams", len(vals), streams))
 
 	// (c) inline form
-	words := []string{"a", "GET", "k1", "0", "-1", string(c10text(40)), "*", "$3"}
+	// (only the space separates the words of an inline command: tabs, other control characters and Unicode spaces
+	// are data, as they are for redis-server)
+	words := []string{"a", "GET", "k1", "0", "-1", string(c10text(40)), "*", "$3", "a\tb", "v\x0bw\x0cq", "x\u00a0y", "\u4f60\u597d\u3000\u4e16\u754c", "m\u0085n\u2028o", "\x00\xff"}
 	var inl func(prefix []string)
 	inl = func(prefix []string) {
 		if len(prefix) > 0 {
